@@ -842,6 +842,10 @@ def _prefix(st, const):
     p = getattr(sp, const)
     # the prefix must also be the one found under its factor, and scale a unit by it
     assert sp.SI_PREFIX_MAP[p.factor] is p
+    # the factor is an exact number: its reciprocal is the exact reciprocal
+    inv = 1 / p.factor
+    if isinstance(inv, float) or inv * p.factor != 1:
+        return f"ok {p.name} {p.abbr} {rat(p.factor)} INEXACT-RECIPROCAL {inv!r}"
     return f"ok {p.name} {p.abbr} {rat(p.factor)}"
 
 
@@ -944,6 +948,19 @@ def _q_hash(st, a, b):
     if eq:
         assert (len({qa, qb}) == 1) == heq
     return f"ok eq={_b(eq)} hasheq={_b(heq)}"
+
+
+@op("q_hash_stable")
+def _q_hash_stable(st, a, name):
+    """the hash of a quantity does not change while a money converter is active"""
+    q = qty_of(a)
+    h1 = hash(q)
+    c = st.obj["mc", name]
+    with c:
+        h2 = hash(q)
+        same_in = hash(qty_of(a)) == h2
+    h3 = hash(q)
+    return f"ok stable={_b(h1 == h2 == h3)} fresh={_b(same_in)}"
 
 
 @op("u_hash")
